@@ -273,6 +273,17 @@ func GenMki(r *common.Rand, sh Shape, g *common.Gen, signer string) string {
 	case 2:
 		fh = GenName(r, Shape{Big: sh.Big}, g) + "," + GenName(r, Shape{}, g)
 		g.Stat("fh")
+	case 3:
+		// a delegation that extends the Interest's own name: the application may well hold ONE name and
+		// pass a prefix slice of it as the Interest name and the whole of it as the hint (MakeInterest gets
+		// two slices of one array - see harness MakeInterest)
+		if name != "/" {
+			fh = name + "/8:68696e74"
+			if r.Chance(1, 2) {
+				fh += "/8:78"
+			}
+			g.Stat("fh-extends-name")
+		}
 	}
 	nonce := "-"
 	if r.Chance(2, 3) {
